@@ -257,6 +257,12 @@ func c02Run(p framePlan) *common.Fail {
 			return common.Failf("message-code-wrong", "%s/%s: value reports message code %#x, the message kind is %#x", p.Kind, p.CemiKind, uint8(mc), p.Frame.Cemi.Code)
 		}
 	}
+	// a relay re-encodes into the buffer it used for the previous telegram: the encoding is a function of the value
+	dirty := bytes.Repeat([]byte{0xff}, len(enc))
+	knxnet.Pack(dirty, lib)
+	if !bytes.Equal(dirty, enc) {
+		return common.Failf("encoding-depends-on-buffer", "%s/%s: %s packed into a fresh buffer gives %x, into a buffer that held 0xff octets %x", p.Kind, p.CemiKind, common.Show(lib), enc, dirty)
+	}
 	if !common.SameValue(got, lib) {
 		return common.Failf("roundtrip-differs", "%s/%s: encoded %s\n decoded %s\n bytes %x", p.Kind, p.CemiKind, common.Show(lib), common.Show(got), enc)
 	}
